@@ -337,8 +337,7 @@ func (v *visitor) VisitLiteral(ctx *parser.LiteralContext) any {
 		if text[0] == '\'' {
 			// Unquote 内部假定单引号括起的都是单个字符
 			// 我们允许单引号括起字符串 这里兼容一下 转为双引号
-			text = strings.ReplaceAll(text, "\\'", "'")
-			text = `"` + text[1:len(text)-1] + `"`
+			text = singleQuoteToDouble(text)
 		}
 		t, err := strconv.Unquote(text) // 去除引号
 		if err != nil {
@@ -370,6 +369,31 @@ func (v *visitor) VisitLiteral(ctx *parser.LiteralContext) any {
 	default:
 		panic("assert error")
 	}
+}
+
+// singleQuoteToDouble 将单引号括起的字符串字面量改写为双引号形式 以便交给 strconv.Unquote
+// \' 还原为 ', 未转义的 " 需要加上转义, 其他转义序列(包括 \\)原样保留
+func singleQuoteToDouble(text string) string {
+	body := text[1 : len(text)-1]
+	var sb strings.Builder
+	sb.WriteByte('"')
+	for i := 0; i < len(body); i++ {
+		c := body[i]
+		switch {
+		case c == '\\' && i+1 < len(body):
+			i++
+			if body[i] != '\'' {
+				sb.WriteByte('\\')
+			}
+			sb.WriteByte(body[i])
+		case c == '"':
+			sb.WriteString(`\"`)
+		default:
+			sb.WriteByte(c)
+		}
+	}
+	sb.WriteByte('"')
+	return sb.String()
 }
 
 func (v *visitor) VisitExpressionList(ctx *parser.ExpressionListContext) any {
